@@ -103,6 +103,9 @@ fn value_bytes_objstm(tree: &T) -> Result<Vec<u8>, String> {
         incremental_update: false,
     };
     let pdf = write_doc(tree, cfg)?;
+    if let Ok(p) = std::env::var("C09_DUMP") {
+        let _ = std::fs::write(p, &pdf);
+    }
     let mut from = 0;
     while let Some(p) = find(&pdf, b"/Type /ObjStm", from) {
         from = p + 1;
@@ -143,9 +146,10 @@ fn value_bytes_objstm(tree: &T) -> Result<Vec<u8>, String> {
         bounds.push(inflated.len());
         for i in 0..nobj {
             let body = &inflated[bounds[i]..bounds[i + 1]];
-            let marker = b"\n/Type /Annot\n/V ";
-            if body.starts_with(b"<<\n/P ") {
-                if let Some(m) = find(body, marker, 0) {
+            let marker: &[u8] = b"<<\n/F 4\n/Rect [0 0 0 0]\n/Subtype /Text\n/Type /Annot\n/V ";
+            if body.starts_with(marker) {
+                {
+                    let m = 0;
                     // the object body ends with "\n>>" (+ a separator byte before the next object)
                     let mut e = body.len();
                     while e > 0 && (body[e - 1] == b'\n' || body[e - 1] == b' ') && !body[..e].ends_with(b"\n>>") {
